@@ -48,6 +48,9 @@ fn go<T: Scalar, const D: usize>(h: &C07, out: &mut Outcome<T>) {
     };
     let ne = g.ne();
     let (zero, one) = (T::rat(0, 1), T::rat(1, 1));
+    if std::env::var("SYMX_TRACE").is_ok() {
+        eprintln!("TRACE order {:?} xt {:?}", sec.order, sec.xt.iter().map(|v| v.sym_id()).collect::<Vec<_>>());
+    }
     // (i) sector formula: x~_{s_k} = prod_{j<k} xi_j^(1/omega(g_j))
     let mut mask = g.full();
     let mut kappa = one;
@@ -124,6 +127,9 @@ impl Harness for C07 {
     }
     fn tol(&self) -> f64 {
         1e-9
+    }
+    fn noise_floor_factor(&self) -> f64 {
+        0.0 // monomials and powers only: no cancellation
     }
 }
 
